@@ -135,6 +135,15 @@ where
     ) -> Result<Self, DeserializationError> {
         let num_partitions = proof.num_partitions();
 
+        // there must be a commitment for every layer of the proof and one for the remainder
+        if layer_commitments.len() != proof.num_layers() + 1 {
+            return Err(DeserializationError::InvalidValue(format!(
+                "expected {} FRI layer commitments (one per layer and one for the remainder), but {} were provided",
+                proof.num_layers() + 1,
+                layer_commitments.len()
+            )));
+        }
+
         let remainder = proof.parse_remainder()?;
         let (layer_queries, layer_proofs) =
             proof.parse_layers::<H, E>(domain_size, folding_factor)?;
